@@ -93,8 +93,12 @@ static const char* kScenarioNames[] = {
     "whenAny(p,q): reject p || resolve q",
     "whenAll(p,q): resolve p || resolve q",
     "whenAll(p,q): resolve p || reject q",
+    "resolve void p || then on the promise derived from it (value continuation), which already has a continuation",
+    "reject void p || then on the promise derived from it (rethrow), which already has a continuation",
+    "resolve void p || then on the promise derived from it (promise-returning continuation), which already has a continuation",
+    "resolve p || then on the promise derived from it (value continuation), which already has a continuation",
 };
-static const int kNScenarios = 18;
+static const int kNScenarios = 22;
 
 static std::string what(std::exception_ptr e)
 {
@@ -119,9 +123,9 @@ static void settle_thread(void* a)
     World* w = static_cast<World*>(a);
     try
     {
-        if (w->scenario == 2 || w->scenario == 6 || w->scenario == 10 || w->scenario == 15)
+        if (w->scenario == 2 || w->scenario == 6 || w->scenario == 10 || w->scenario == 15 || w->scenario == 19)
             (*w->slot.rej)(std::runtime_error("boom"));
-        else if (w->scenario == 9)
+        else if (w->scenario == 9 || w->scenario == 18 || w->scenario == 20)
             (*w->slot.res)();
         else if (w->scenario == 11)
             (*w->inner.rej)(std::runtime_error("boom"));
@@ -183,6 +187,12 @@ static void attach_thread(void* a)
         case 15:
         case 16:
             (*w->slot2.res)(6);
+            break;
+        case 18:
+        case 19:
+        case 20:
+        case 21:
+            attach_to<1>(w, *w->d);
             break;
         case 14:
         case 17:
@@ -253,6 +263,24 @@ static void run_case(uint64_t idx, vr::Ctx& ctx)
             (*w->slot.res)(5);
             break;
         }
+        case 18:
+        case 19:
+        case 20:
+        case 21: {
+            if (c.scenario != 21)
+                w->pv.reset(new Async::Promise<void>([&](Async::Resolver& r, Async::Rejection& j) {
+                    w->slot.res.reset(new Async::Resolver(std::move(r)));
+                    w->slot.rej.reset(new Async::Rejection(std::move(j)));
+                }));
+            if (c.scenario == 20)
+                w->d.reset(new Async::Promise<int>(w->pv->then([]() { return Async::Promise<int>::resolved(42); }, Async::Throw)));
+            else if (c.scenario == 21)
+                w->d.reset(new Async::Promise<int>(w->p->then([](int v) { return v + 37; }, Async::Throw)));
+            else
+                w->d.reset(new Async::Promise<int>(w->pv->then([]() { return 42; }, Async::Throw)));
+            attach_to<0>(w, *w->d);
+            break;
+        }
         case 13:
         case 14:
         case 15:
@@ -310,7 +338,7 @@ static void run_case(uint64_t idx, vr::Ctx& ctx)
         };
         if (x.deadlock || x.horizon)
             ctx.violation(std::string("c12:") + (x.deadlock ? "deadlock" : "horizon") + ":" + kScenarioNames[c.scenario], detail("\"x\":0"));
-        else if (c.scenario >= 13)
+        else if (c.scenario >= 13 && c.scenario <= 17)
         {
             for (int t = 0; t < 3; ++t)
                 if (!w->threw[t].empty())
@@ -336,9 +364,9 @@ static void run_case(uint64_t idx, vr::Ctx& ctx)
         }
         else
         {
-            int expectVal[] = { 5, 5, 0, 6, 6, 10, 0, 5, 16, 1, 0, 0, 7 };
-            bool rejecting  = c.scenario == 2 || c.scenario == 6 || c.scenario == 10 || c.scenario == 11;
-            int nconts      = (c.scenario == 1 || c.scenario == 7) ? 2 : 1;
+            int expectVal[] = { 5, 5, 0, 6, 6, 10, 0, 5, 16, 1, 0, 0, 7, 0, 0, 0, 0, 0, 42, 0, 42, 42 };
+            bool rejecting  = c.scenario == 2 || c.scenario == 6 || c.scenario == 10 || c.scenario == 11 || c.scenario == 19;
+            int nconts      = (c.scenario == 1 || c.scenario == 7 || c.scenario >= 18) ? 2 : 1;
             for (int t = 0; t < 3; ++t)
                 if (!w->threw[t].empty())
                     ctx.violation(std::string("c12:exception-in-thread:") + kScenarioNames[c.scenario], detail("\"what\":" + vr::jstr(w->threw[t])));
@@ -386,11 +414,17 @@ int main(int argc, char** argv)
     bool thorough   = opt.geti("thorough", 0);
     int maxb        = opt.geti("maxbound", 2);
     int from = opt.geti("from", 0), to = std::min<int>(opt.geti("to", kNScenarios - 1), kNScenarios - 1);
+    int alsoFrom = opt.geti("also-from", kNScenarios);
+    std::vector<int> scen;
     for (int s = from; s <= to; ++s)
+        scen.push_back(s);
+    for (int s = std::max(alsoFrom, to + 1); s < kNScenarios; ++s)
+        scen.push_back(s);
+    for (int s : scen)
         for (int b = 0; b <= maxb; ++b)
             gCases.push_back({ s, b, 0, 1 });
     if (thorough)
-        for (int s = from; s <= to; ++s)
+        for (int s : scen)
         {
             if (s == 7)
                 for (int sh = 0; sh < 8; ++sh)
